@@ -471,6 +471,15 @@ void sim_describe(const char* fmt, ...) {
   vsnprintf(describe_buf + k, sizeof describe_buf - k, fmt, ap);
   va_end(ap);
 }
+void sim_trace(const char* fmt, ...) {
+  if (!trace_on) return;
+  char b[600];
+  va_list ap;
+  va_start(ap, fmt);
+  vsnprintf(b, sizeof b, fmt, ap);
+  va_end(ap);
+  rawlog("[%lu] t%d %s\n", g_steps, me, b);
+}
 void sim_scenario(const char* tag) {
   strncpy(scenario_buf, tag ? tag : "", sizeof scenario_buf - 1);
   scenario_buf[sizeof scenario_buf - 1] = 0;
